@@ -29,7 +29,7 @@ def table_blocks(tier):
     """(nk, min_rows, max_rows, plan) - plan 'all': every (reverse, na_last, mode-rotating);
     'rot<k>': k settings per table, rotating with the table index."""
     if tier == 'quick':
-        return [(1, 0, 4, 'all'), (2, 0, 3, 'all'), (2, 4, 4, 'rot1'), (3, 0, 1, 'all'), (3, 2, 2, 'rot10')]
+        return [(1, 0, 4, 'all'), (2, 0, 3, 'all'), (2, 4, 4, 'rot1'), (3, 0, 1, 'all'), (3, 2, 2, 'rot6')]
     return [(1, 0, 4, 'all'), (2, 0, 4, 'all'), (3, 0, 2, 'all'), (3, 3, 3, 'rot4')]
 
 
